@@ -81,6 +81,25 @@ def parseInt64Chars (cs : List Char) : Option Int :=
 
 def parseInt64 (s : String) : Option Int := parseInt64Chars s.toList
 
+/-- the value `strconv.ParseInt`/`Atoi` return when the caller ignores the error: 0 on a syntax error,
+the clamped value on a range error. -/
+def parseInt64Lossy (s : String) : Int :=
+  match parseInt64 s with
+  | some v => v
+  | none =>
+    -- range error ⇒ clamped; syntax error ⇒ 0
+    let cs := s.toList
+    let (neg, ds) : Bool × List Char :=
+      match cs with
+      | '-' :: r => (true, r)
+      | '+' :: r => (false, r)
+      | r => (false, r)
+    if ds.isEmpty then 0 else
+    match parseDigits ds 0 with
+    | none => 0
+    | some _ => if neg then -(2 ^ 63 : Int) else (2 ^ 63 : Int) - 1
+
+
 /-- `strings.Split(s, "/")` -/
 def splitSlash (s : String) : List String := s.splitOn "/"
 
